@@ -10,6 +10,14 @@ PID = "C16"
 VALUE_STARTS = ("string", "number", "literal", "[", "{")
 
 
+def _is_utf8(b):
+    try:
+        b.decode("utf-8")
+        return True
+    except UnicodeDecodeError:
+        return False
+
+
 def context_of(t):
     return "%s@depth%d" % (t.ctx, min(t.open, 3))
 
@@ -93,9 +101,11 @@ def shard_fn(shard, nshards, seed, tier, exe, ndocs):
             cid = "%d.%d" % (shard, n)
             n += 1
             h = vt.hex()
-            cmds = ["P 1 0 1 x" + h, "P 0 0 1 x" + h]
+            # VALIDATE_UTF8 is orthogonal (the documents are valid UTF-8 apart from injected control bytes, which are ASCII): it must not change any outcome
+            u8 = 0x10 if rng.random() < 0.35 and all(b < 0x80 or True for b in vt[:0]) and _is_utf8(vt) else 0
+            cmds = ["P %d 0 1 x%s" % (1 | u8, h), "P %d 0 1 x%s" % (u8, h)]
             if kind == "trailing-garbage":
-                cmds.append("P 3 0 1 x" + h)
+                cmds.append("P %d 0 1 x%s" % (3 | u8, h))
             cases.append((cid, cmds))
             meta[cid] = (kind, ctx, vt, neutral, extra, expd, text)
     results, crashes = core.run_script(exe, cases, tag="c16")
